@@ -21,7 +21,7 @@ def sheet_sources(ctx):
         src.append((vlib.fmt_of_ext(e), p))
     try:
         import gensheets
-        src += gensheets.generate(ctx, n=ctx.scale(40, 400))
+        src += gensheets.generate(ctx, n=ctx.scale(20, 200))
     except ImportError:
         ctx.notes.append("generated workbooks unavailable (tools/gensheets.py missing): fixtures only")
     return src
@@ -144,6 +144,9 @@ def run(ctx):
         if pr is not None:
             ctx.nontrivial("%s|%s|%d" % (p, hn, n))
         ctx.sample({"case": case, "result": ans[1][:120]})
+
+    import shutil
+    shutil.rmtree(vlib.tmpdir(ctx), ignore_errors=True)
 
 def search(ctx):
     run(ctx)
